@@ -97,6 +97,7 @@ class Repo:
         for m, tree in self.modules.items():
             for n in tree.body:
                 self._top(m, n)
+        self._properties_from_factories()
         self._mro = {}
         self.inlined = {}
         self.absorbed = []
@@ -189,6 +190,58 @@ class Repo:
         elif isinstance(n, (ast.If, ast.Try)):
             for b in n.body:
                 self._top(m, b)
+
+    def _properties_from_factories(self):
+        """class body `name = make_property("const")` with make_property a module-level function of the shape
+               def make_property(p): def fget(self): BODY(p);  [fget.__name__ = ..];  return property(fget)
+        is read as `@property def name(self): BODY("const")` (getattr with a constant name written as an attribute)"""
+        import copy
+        from .normalize import _Getattr, _Sub
+        self.synthesised_properties = []
+        for cq, cnode in list(self.classes.items()):
+            m = cq.rsplit(".", 1)[0]
+            for b in list(cnode.body):
+                if not (isinstance(b, ast.Assign) and len(b.targets) == 1 and isinstance(b.targets[0], ast.Name) and isinstance(b.value, ast.Call)
+                        and isinstance(b.value.func, ast.Name) and not b.value.keywords and b.value.args and all(isinstance(a, ast.Constant) for a in b.value.args)):
+                    continue
+                fac = self.funcs.get(f"{m}.{b.value.func.id}")
+                if fac is None or fac.cls is not None:
+                    continue
+                body = [st for st in fac.node.body if not (isinstance(st, ast.Expr) and isinstance(st.value, ast.Constant))]
+                inner = [st for st in body if isinstance(st, ast.FunctionDef)]
+                if len(inner) != 1 or not body or not isinstance(body[-1], ast.Return):
+                    continue
+                g = inner[0]
+                rv = body[-1].value
+                if not (isinstance(rv, ast.Call) and isinstance(rv.func, ast.Name) and rv.func.id == "property" and len(rv.args) == 1 and not rv.keywords
+                        and isinstance(rv.args[0], ast.Name) and rv.args[0].id == g.name):
+                    continue
+                others = [st for st in body[:-1] if st is not g]
+                if not all(isinstance(st, ast.Assign) and len(st.targets) == 1 and isinstance(st.targets[0], ast.Attribute) and isinstance(st.targets[0].value, ast.Name)
+                           and st.targets[0].value.id == g.name and st.targets[0].attr in ("__name__", "__doc__", "__qualname__") for st in others):
+                    continue
+                fa = fac.node.args
+                ps = [p_.arg for p_ in fa.posonlyargs + fa.args]
+                if fa.vararg or fa.kwarg or fa.kwonlyargs or len(ps) != len(b.value.args):
+                    continue
+                if any(isinstance(x, ast.Name) and isinstance(x.ctx, ast.Store) and x.id in ps for x in ast.walk(g)):
+                    continue
+                new = copy.deepcopy(g)
+                new.name = b.targets[0].id
+                new.decorator_list = [ast.Name(id="property", ctx=ast.Load())]
+                sub = dict(zip(ps, b.value.args))
+                new.body = [_Getattr().visit(_Sub(sub, {}).visit(st)) for st in new.body]
+                ast.copy_location(new, b)
+                ast.fix_missing_locations(new)
+                for x in ast.walk(new):
+                    if hasattr(x, "lineno"):
+                        x.lineno = b.lineno
+                        x.end_lineno = getattr(b, "end_lineno", b.lineno)
+                f = Func(m, cnode.name, new, self.paths[m])
+                if f.qname not in self.funcs:
+                    self.funcs[f.qname] = f
+                    cnode.body.append(new)
+                    self.synthesised_properties.append(f.qname)
 
     # ---------------------------------------------------------------- lookup
     def digest(self):
